@@ -37,6 +37,9 @@ const (
 	FRetry       // IsRetry
 	FHedge       // IsHedge
 	FNilResult   // PolicyResult pointer was nil
+	FEndCanceled // end of run: the referenced execution's IsCanceled()
+	FEndChanClosed // end of run: its Canceled() channel is closed
+	FEndCtxErr   // end of run: its Context().Err() is set
 )
 
 // Event is one observation. Events are appended by the task that made the
@@ -61,6 +64,7 @@ type Event struct {
 	Start, AttemptStart                   time.Duration // relative to sim start
 	Ref                                   any           // object reference for end-of-run queries (execution copies, contexts)
 	Str                                   string
+	Aux                                   []int // probe exit: sequence numbers of inner-call enter events whose execution is cancelled now
 }
 
 type Log struct {
@@ -119,4 +123,35 @@ func (l *Log) violate(oracle, sig, msg string, seq int) {
 	if len(l.Viol) < 16 {
 		l.Viol = append(l.Viol, Violation{Oracle: oracle, Msg: msg, Seq: seq, Sig: sig})
 	}
+}
+
+//go:norace
+func (l *Log) lastSeq() int {
+	if l == nil {
+		return 0
+	}
+	return len(l.Ev) - 1
+}
+
+// childCanceled returns the sequence numbers of the probe-enter events at
+// position pos of the calling task's execution recorded after sequence number
+// from whose execution copy is cancelled now.
+//
+//go:norace
+func (l *Log) childCanceled(from, pos int) []int {
+	if l == nil || l.closed {
+		return nil
+	}
+	tag := simrt.Tag()
+	var out []int
+	for k := from + 1; k < len(l.Ev); k++ {
+		e := &l.Ev[k]
+		if e.Kind != EvProbeEnter || e.Pos != pos || e.Exec != tag {
+			continue
+		}
+		if c, ok := e.Ref.(interface{ IsCanceled() bool }); ok && c.IsCanceled() {
+			out = append(out, e.Seq)
+		}
+	}
+	return out
 }
